@@ -301,6 +301,15 @@ example : hashJoin {} .semi
       residual := fun l r => match l.getD 1 .null, r.getD 1 .null with | .int a, .int b => decide (a ≠ b) | _, _ => false }
     [[[[.int 9, .null]]]] [[[[.int 9, .int 5]]]] = [] := by decide
 
+-- `dictProbeKeyNoMatch` (a dictionary-encoded probe key never equals a plain VARCHAR build key): no pair is produced, every
+-- preserved row is NULL-extended
+example : ¬ (hashJoin { dictProbeKeyNoMatch := true } .inner Ex.cfgK Ex.Lx Ex.Rx ~
+    nlJoin .inner 2 2 (fun l r => keysEq Ex.cfgK l r && Ex.cfgK.residual l r) Ex.Lx.flatten.flatten Ex.Rx.flatten.flatten) := by
+  decide
+example : hashJoin { dictProbeKeyNoMatch := true } .inner Ex.cfgK Ex.Lx Ex.Rx = [] := by decide
+example : hashJoin { dictProbeKeyNoMatch := true } .left Ex.cfgK Ex.Lx Ex.Rx =
+    Ex.Lx.flatten.flatten.map (· ++ [.null, .null]) := by decide
+
 -- the runtime filter must NOT be applied to a preserved / output probe side: LEFT and ANTI with the build on
 -- the right lose exactly the rows they exist to keep
 example : ¬ (hashJoinRF {} .left { Ex.cfgK with buildLeft := false } 0 Ex.Lx Ex.Rx ~
